@@ -2,6 +2,7 @@
 import json
 import os
 import c11_rules
+import validators
 from vlib.core import VERIF
 
 
@@ -19,6 +20,10 @@ def run(facts, tier):
     obs += o
     rules.append({"rule": "a2 stream final check", "instances": len(o), "min": 31, "functions": armed2,
                   "text": "every stream reader tests the stream state after its last read on every returning path"})
+    o = validators.obligations(facts)
+    obs += o
+    rules.append({"rule": "a3 validators", "instances": len(o), "min": 160,
+                  "text": "every reader keeps the validations of image fields (check_* calls and inline throw guards) it performs on the reviewed tree"})
     return {
         "level": "other",
         "rules": rules,
